@@ -14,6 +14,7 @@ import (
 	"net"
 	"net/http"
 	"os"
+	"path/filepath"
 	"strings"
 
 	"github.com/go-openapi/runtime/client"
@@ -40,6 +41,12 @@ func init() {
 			"Material encodings (a separate sub-workload, not lattice dimensions): PKCS#8 key files (EC, RSA), one file holding certificate and key (named by both Certificate and Key, or paired with the plain files), a certificate file of leaf + intermediate with its key, and three mismatching pairs of those, " +
 			"each without roots and with LoadedCA = " + fmt.Sprint(len(encodingPoints())) + " points, inspected through all three entry points (the whole certificate chain of the config is compared), plus a handshake by either route against S1 where CA1 is trusted (the whole chain the listener received is compared). " +
 			"TLSTransport and TLSClient are also inspected on the 8 points {callback, tickets, cache} with every other slot unset. " +
+			"Root kinds (a separate sub-workload): roots that are NOT flagged as certificate authorities - a self-signed server certificate pinned as a root, a self-signed certificate without basic constraints - in the LoadedCA slot, the pinned one also as CA file and as pool, " +
+			"x the other root slots x server name x insecure = " + fmt.Sprint(len(rootKindPoints())) + " points, inspected through all three entry points, plus handshakes by either route against S3 (serves the pinned certificate itself), S0 and S1. " +
+			"Loaded material shapes (a separate sub-workload): LoadedKey = typed nil pointer, zero value, key struct with the public half only (RSA and EC each: an error is owed, a panic is a violation), a non-pointer key value, an opaque crypto.Signer and an EC key on the generic (unnamed) implementation of its curve (of the right pair: an error or the whole identity; of the other pair: an error), " +
+			"a zero-value LoadedCertificate = " + fmt.Sprint(len(shapePoints())) + " points through all three entry points. " +
+			"Rotation (a separate sub-workload): " + fmt.Sprint(len(rotations)) + " call sequences x 3 entry points in which the content under ONE certificate+key path (ec > rsa > garbage > removed, and an order with re-creation) or ONE CA path (bundle > other root > removed ...) is replaced between calls; the call after every step is judged by the table row of the content that is there now (inspection only). " +
+			"Every exported field of the returned tls.Config that the table does not name (Time, KeyLogWriter, CipherSuites, Renegotiation, ...) is recorded as class unjudged-config-field-set:<field> when it is not zero. " +
 			"non-trivial = a lattice point with at least one option set (distinct by lattice index), and each executed handshake (distinct by lattice index x listener x verdict)",
 		Assumptions: []string{
 			"a key supplied without any certificate is not judged for the error (nothing to present, no identity is dropped); if a config is returned it must carry no client certificate",
@@ -53,6 +60,11 @@ func init() {
 			"a worker whose hand-made TLS 1.0/1.1 client cannot complete a handshake with the legacy listener (harness self-check) evaluates nothing: the downgrade probe would be vacuous, the run ends INCONCLUSIVE (note legacy_listener_selfcheck_failed)",
 			"the supplied client certificate is the whole content of the certificate slot: one certificate for the lattice's material (the config's chain and the chain received by the listener must have exactly that one entry), leaf + intermediate for the chain file of the encodings sub-workload",
 			"a handshake in which either side hits the 15 s watchdog deadline is retried once and then counted as class hs-watchdog; it is never judged",
+			"a handshake that is refused although the table says the server must be accepted is raised only when a second, independent attempt is refused too (the configuration is deterministic; a refusal that does not repeat is a transient of the loopback harness, class *-refusal-not-reproduced)",
+			"failures of the harness itself are never violations: when the key material cannot be minted or written, or a listener cannot be opened (notes harness_mint_failed, harness_listen_failed), or a file the monitor wrote is gone or changed when an alarm is about to be raised (note harness_material_vanished), the worker evaluates nothing more, the run stays below the coverage floor and ends INCONCLUSIVE. The files live in a private directory (0700) that the monitor creates under <VERIF_OUT>/run/c18-material, not directly in $TMPDIR",
+			"a certificate supplied as a root is a supplied root whatever its basic constraints say (crypto/x509 accepts any certificate of RootCAs as a trust anchor); whether a chain then verifies is left to x509.Verify on the independently built expected pool",
+			"LoadedKey holding a usable key of the right pair as a non-pointer struct value or as an opaque crypto.Signer: the doc comments do not promise that form is accepted; an error is accepted, and so is a configuration that carries exactly the supplied identity; a configuration without it is a violation",
+			"exported tls.Config fields that the statement does not name are classed, not judged",
 		},
 		MinNontrivial: latticeSize() - 1, // exhaustive: every non-trivial point of the lattice must have been inspected
 		QuickShards:   8,
@@ -189,6 +201,19 @@ type Case struct {
 	NameVariant bool `json:"name_variant,omitempty"`
 	// Encoding marks a point of the material-encodings sub-workload: Point.CertFile / Point.KeyFile name files outside the lattice
 	Encoding bool `json:"encoding,omitempty"`
+	// RootKind marks a point of the root-kinds sub-workload: Point.LoadedCA / CAFile / Pool may name a root outside the lattice ("pinned", "bare")
+	RootKind bool `json:"root_kind,omitempty"`
+	// Shape marks a point of the loaded-material-shapes sub-workload: Point.LoadedKey / LoadedCert name a value outside the lattice (typed nil, zero value, ...)
+	Shape bool `json:"loaded_shape,omitempty"`
+	// Rotation is a sequence of contents written one after the other to ONE file path, with a call after each (inspection only)
+	Rotation *Rotation `json:"rotation,omitempty"`
+}
+
+// caseFor wraps a (minimised) point into a replayable case, marking the sub-workloads whose vocabulary it uses.
+func caseFor(p Point) *Case {
+	q := p
+	return &Case{Point: &q, NameVariant: nameClass(p.ServerName) != "", Encoding: isEncodingFile(p.CertFile) || isEncodingFile(p.KeyFile),
+		RootKind: usesRootKind(p), Shape: usesShape(p)}
 }
 
 // ---- material encodings (a separate small sub-workload, NOT lattice dimensions) ----
@@ -334,6 +359,11 @@ func build(p Point, mat *material) (client.TLSClientOptions, *handles) {
 		o.LoadedCertificate = mat.rsaCert
 	case "ec":
 		o.LoadedCertificate = mat.ecCert
+	case "zero":
+		o.LoadedCertificate = &x509.Certificate{}
+	}
+	if v, ok := shapedKey(p.LoadedKey, mat); ok {
+		o.LoadedKey = v
 	}
 	switch p.LoadedKey {
 	case "rsa":
@@ -351,6 +381,10 @@ func build(p Point, mat *material) (client.TLSClientOptions, *handles) {
 		o.LoadedCA = mat.ca1
 	case "ca2":
 		o.LoadedCA = mat.ca2
+	case "pinned":
+		o.LoadedCA = mat.pinnedCert
+	case "bare":
+		o.LoadedCA = mat.bareCert
 	}
 	o.LoadedCAPool = mat.pool(p.Pool)
 	o.ServerName = p.ServerName
@@ -373,6 +407,7 @@ type expectation struct {
 	idErr    bool   // unusable client material: an error is owed
 	idReason string // why
 	idFree   bool   // key without certificate: error not judged
+	idEither bool   // a key of the right pair in a form the doc comment does not promise (non-pointer value, opaque signer): an error is accepted; a configuration must carry the whole identity idWant
 	idWant   string // "" none | rsa | ec
 	idClass  string
 	// roots
@@ -412,6 +447,10 @@ func expect(p Point) expectation {
 		// "If this field is set, LoadedKey is also required."
 		e.idClass = "loaded/" + p.LoadedCert + "+" + orUnset(p.LoadedKey)
 		switch {
+		case p.LoadedCert == "zero":
+			e.idErr, e.idReason = true, "loaded-cert-zero-value"
+		case shapeOf(p.LoadedKey) != "":
+			expectShape(p, &e)
 		case p.LoadedKey == "":
 			e.idErr, e.idReason = true, "loaded-key-missing"
 		case p.LoadedKey == "ed25519":
@@ -431,12 +470,12 @@ func expect(p Point) expectation {
 	switch {
 	case p.LoadedCA != "":
 		// "CA ... This field is ignored if LoadedCA is set."
-		e.rootsClass = "loaded-ca"
+		e.rootsClass = "loaded-ca" + notCA(p.LoadedCA)
 		if p.CAFile != "" {
 			e.rootsClass += "+ca-file-ignored(" + p.CAFile + ")"
 		}
 	case p.CAFile != "":
-		e.rootsClass = "ca-file(" + p.CAFile + ")"
+		e.rootsClass = "ca-file(" + p.CAFile + ")" + notCA(p.CAFile)
 		switch p.CAFile {
 		case "unreadable":
 			e.rootsErr = true
@@ -455,6 +494,9 @@ func expect(p Point) expectation {
 	if p.Pool == "system+ca2" {
 		e.rootsClass += "(system-derived)"
 	}
+	if p.Pool == "pinned" {
+		e.rootsClass += "(non-ca-certificate-in-pool)"
+	}
 	switch {
 	case p.CertFile != "":
 		e.idKind = "cert-file"
@@ -465,9 +507,9 @@ func expect(p Point) expectation {
 	}
 	switch {
 	case p.LoadedCA != "":
-		e.rootsKind = "loaded-ca"
+		e.rootsKind = "loaded-ca" + notCA(p.LoadedCA)
 	case p.CAFile != "":
-		e.rootsKind = "ca-file"
+		e.rootsKind = "ca-file" + notCA(p.CAFile)
 	case p.Pool != "":
 		e.rootsKind = "pool-only"
 	default:
@@ -475,6 +517,9 @@ func expect(p Point) expectation {
 	}
 	if p.Pool != "" && e.rootsKind != "pool-only" {
 		e.rootsKind += "+pool"
+	}
+	if p.Pool == "pinned" {
+		e.rootsKind += "(non-ca-certificate)"
 	}
 	// "ServerName ... If this field is set then InsecureSkipVerify will be ignored and treated as false."
 	e.insecure = p.Insecure && p.ServerName == ""
@@ -504,6 +549,12 @@ func expectedPool(p Point, mat *material) *x509.CertPool {
 		pool.AddCert(mat.ca1)
 	case p.LoadedCA == "ca2":
 		pool.AddCert(mat.ca2)
+	case p.LoadedCA == "pinned":
+		pool.AddCert(mat.pinnedCert) // a supplied root is a supplied root, whatever its basic constraints say
+	case p.LoadedCA == "bare":
+		pool.AddCert(mat.bareCert)
+	case p.CAFile == "pinned":
+		pool.AddCert(mat.pinnedCert)
 	case p.CAFile == "ca1":
 		pool.AppendCertsFromPEM(mat.caBundlePEM) // every certificate of the file is a supplied root
 	}
@@ -529,6 +580,8 @@ func inspect(p Point, cfg *tls.Config, err error, h *handles, mat *material, ent
 			classes = append(classes, "error-owed-and-returned")
 		case e.idFree || e.rootsFree:
 			classes = append(classes, "error-in-unjudged-zone")
+		case e.idEither:
+			classes = append(classes, "error-for-key-form-not-promised:"+e.idReason)
 		default:
 			add("unexpected-error/"+e.idKind+"/"+e.rootsKind, "returned error %q although every supplied option is usable (identity: %s, roots: %s)", err, e.idClass, e.rootsClass)
 		}
@@ -648,6 +701,14 @@ func inspect(p Point, cfg *tls.Config, err error, h *handles, mat *material, ent
 	if cfg.VerifyConnection != nil {
 		classes = append(classes, "verify-connection-set")
 	}
+	// every other exported field of the configuration: the statement names none of them, so a field that is set is
+	// recorded as a class (visible in the evidence), not judged
+	// (looked at on the points with default callback/session flags, an eighth of the lattice, and on every sub-workload)
+	if p.wrapperProjection() {
+		for _, name := range unjudgedFieldsSet(cfg) {
+			classes = append(classes, "unjudged-config-field-set:"+name)
+		}
+	}
 	return
 }
 
@@ -689,6 +750,24 @@ type worker struct {
 	srv       map[string]*server
 	legacyOK  bool // the legacy listener completed a TLS <= 1.1 handshake with a hand-made client (self-check of the harness)
 	minimised map[string]int
+	// aborted: the monitor's own files vanished or changed under it (somebody else's clean-up): nothing more is
+	// evaluated or raised by this worker, the run stays below the coverage floor and ends INCONCLUSIVE
+	aborted bool
+}
+
+// materialGone is asked before anything is raised: an alarm on a worker whose files are no longer what the monitor
+// wrote says nothing about the library.
+func (w *worker) materialGone() bool {
+	if w.aborted {
+		return true
+	}
+	if w.mat != nil && !w.mat.intact() {
+		w.aborted = true
+		w.m.Note("harness_material_vanished", 1)
+		fmt.Fprintln(os.Stderr, "C18: a key/certificate file written by the monitor is gone or was changed by somebody else: nothing more is evaluated, the run is inconclusive")
+		return true
+	}
+	return false
 }
 
 // evalPoint calls one entry point for the point and judges the result (no side effects on the monitor).
@@ -698,7 +777,7 @@ func (w *worker) evalPoint(p Point, entry string) (fs []finding, classes []strin
 	var shape string
 	pv, stk := mon.Catch(func() { cfg, err, shape = call(entry, o) })
 	if pv != nil {
-		return []finding{{"panic/" + entry, fmt.Sprintf("%s panicked: %v\n%s", entry, pv, stk)}}, nil, nil, false
+		return []finding{{"panic/" + entry + panicFeature(p), fmt.Sprintf("%s panicked: %v\n%s", entry, pv, stk)}}, nil, nil, false
 	}
 	if shape != "" {
 		return []finding{{"wrapper-shape/" + entry, shape}}, nil, nil, false
@@ -744,7 +823,13 @@ func (w *worker) firstFew(sig string) bool {
 // inspectPoint runs the configuration inspection of one point through one entry point.
 func (w *worker) inspectPoint(p Point, entry string) (ok bool) {
 	m := w.m
+	if w.aborted {
+		return false
+	}
 	fs, classes, err, ok := w.evalPoint(p, entry)
+	if len(fs) > 0 && w.materialGone() {
+		return false
+	}
 	m.Eval(1)
 	for _, k := range classes {
 		m.Class(entry + ":" + k)
@@ -770,7 +855,9 @@ func (w *worker) inspectPoint(p Point, entry string) (ok bool) {
 			}
 			return false
 		})
-		m.Violate(sig, detail, &Case{Point: &mp, Entry: entry, NameVariant: nameClass(mp.ServerName) != "", Encoding: isEncodingFile(mp.CertFile) || isEncodingFile(mp.KeyFile)})
+		c := caseFor(mp)
+		c.Entry = entry
+		m.Violate(sig, detail, c)
 	}
 	if m.WantSample() {
 		m.Sample(map[string]interface{}{"case": &Case{Point: &p, Entry: entry}, "error": fmt.Sprint(err), "findings": len(fs), "expected": describe(expect(p))})
@@ -819,7 +906,7 @@ func (w *worker) sweep(from, to, step int, handshakes bool) {
 	r := m.Rand("handshake-sample")
 	rg := m.Rand("https-get-sample") // a stream of its own: the handshake sample stays what it was
 	batch := 0
-	for k := from; k < to; k += step {
+	for k := from; k < to && !w.aborted; k += step {
 		if batch%1000 == 0 {
 			end := k + 1000*step
 			if end > to {
@@ -873,12 +960,30 @@ func (w *worker) sweep(from, to, step int, handshakes bool) {
 	}
 }
 
+// materialBase is the directory, created and owned by the monitor, under which every worker makes its private
+// directory of key and certificate files.
+func materialBase(m *mon.M) string {
+	if m.OutDir == "" {
+		return ""
+	}
+	return filepath.Join(m.OutDir, "run", "c18-material")
+}
+
+// harnessFailed records a failure of the harness itself (no space for the files, no free port, no descriptor): it says
+// nothing about the library. The worker evaluates nothing more, so that the merged run stays below the coverage floor
+// (= the whole lattice) and is reported INCONCLUSIVE; it is never a violation.
+func harnessFailed(m *mon.M, what string, err error) {
+	m.Note(what, 1)
+	fmt.Fprintf(os.Stderr, "C18: %s: %v: nothing is evaluated, the run is inconclusive\n", what, err)
+}
+
 func run(m *mon.M) {
-	mat, err := mint()
+	mat, err := mint(materialBase(m))
 	if err != nil {
-		m.Violate("harness-mint-failed", err.Error(), nil)
+		harnessFailed(m, "harness_mint_failed", err)
 		return
 	}
+	defer os.Remove(materialBase(m)) // only when the last worker leaves it empty
 	defer os.RemoveAll(mat.dir)
 	if sysPinned {
 		m.Note("system_pool_pinned", 1)
@@ -892,11 +997,11 @@ func run(m *mon.M) {
 		return
 	}
 	w := &worker{m: m, mat: mat}
+	defer w.stopServers()
 	if err := w.startServers(); err != nil {
-		m.Violate("harness-listen-failed", err.Error(), nil)
+		harnessFailed(m, "harness_listen_failed", err)
 		return
 	}
-	defer w.stopServers()
 	if !w.legacyOK {
 		// The downgrade probe ("never negotiates below TLS 1.2", seen at a TLS <= 1.1-only peer) would be vacuous without
 		// the run saying so: like for the system-pool pin, the worker evaluates NOTHING, the merged run stays below the
@@ -911,6 +1016,9 @@ func run(m *mon.M) {
 	w.sweep(m.Shard, latticeSize(), step, true)
 	w.nameVariantsWorkload(m.Shard, step)
 	w.encodingsWorkload(m.Shard, step)
+	w.rootKindsWorkload(m.Shard, step)
+	w.shapesWorkload(m.Shard, step)
+	w.rotationWorkload(m.Shard, step)
 }
 
 // encodingsWorkload inspects every point of the material-encodings sub-workload through the three entry points and
@@ -972,11 +1080,12 @@ func replay(m *mon.M, raw json.RawMessage) {
 		m.Violate("bad-replay-case", err.Error(), nil)
 		return
 	}
-	mat, err := mint()
+	mat, err := mint(materialBase(m))
 	if err != nil {
-		m.Violate("harness-mint-failed", err.Error(), nil)
+		harnessFailed(m, "harness_mint_failed", err) // nothing is evaluated: the replay reports evaluations=0
 		return
 	}
+	defer os.Remove(materialBase(m))
 	defer os.RemoveAll(mat.dir)
 	if !sysPinned {
 		m.Note("system_pool_not_pinned", 1) // nothing is evaluated: the replay reports evaluations=0
@@ -984,6 +1093,8 @@ func replay(m *mon.M, raw json.RawMessage) {
 	}
 	w := &worker{m: m, mat: mat}
 	switch {
+	case c.Rotation != nil:
+		w.runRotation(*c.Rotation)
 	case c.Range != nil:
 		step := c.Range.Step
 		if step <= 0 {
@@ -1008,6 +1119,22 @@ func replay(m *mon.M, raw json.RawMessage) {
 				probe.KeyFile = ""
 			}
 		}
+		// roots of the root-kinds sub-workload and values of the loaded-material-shapes sub-workload stand outside the lattice too
+		if isRootKindValue(probe.LoadedCA) {
+			probe.LoadedCA = ""
+		}
+		if isRootKindValue(probe.CAFile) {
+			probe.CAFile = ""
+		}
+		if isRootKindValue(probe.Pool) {
+			probe.Pool = ""
+		}
+		if shapeOf(probe.LoadedKey) != "" {
+			probe.LoadedKey = ""
+		}
+		if probe.LoadedCert == "zero" {
+			probe.LoadedCert = ""
+		}
 		if indexOf(probe) < 0 {
 			m.Violate("bad-replay-case", "the point names a slot content that is not part of the lattice", nil)
 			return
@@ -1020,11 +1147,11 @@ func replay(m *mon.M, raw json.RawMessage) {
 			w.inspectPoint(*c.Point, entry)
 			return
 		}
+		defer w.stopServers()
 		if err := w.startServers(); err != nil {
-			m.Violate("harness-listen-failed", err.Error(), nil)
+			harnessFailed(m, "harness_listen_failed", err) // nothing is evaluated: the replay reports evaluations=0
 			return
 		}
-		defer w.stopServers()
 		w.handshake(*c.Point, c.Server, c.Reject, c.Via)
 	default:
 		m.Violate("bad-replay-case", "neither point nor range", nil)
